@@ -242,6 +242,23 @@ def tls_packets(ci, conn, ep, tcp):
         pk.append(p)
         if t["acks"]:
             pk.append(LPkt(ci, "tcp", not srv, b"", ep, (peer + 1 + seen[not srv]) & 0xFFFFFFFF, (base + 1 + seen[srv]) & 0xFFFFFFFF, 0x10, "ack"))
+    # how the connection ends on the TCP level: 0 nothing, 1 FIN / FIN-ACK / ACK packets without data, 2 the FIN rides on the last data
+    # segment of each direction, 3 the client resets the connection
+    fin = t.get("fin", 0)
+    tot = {d: sum(len(x["data"]) for x in segs if x["srv"] == d and not x.get("redup")) for d in (False, True)}
+    nxt = {False: (ic + 1 + tot[False]) & 0xFFFFFFFF, True: (is_ + 1 + tot[True]) & 0xFFFFFFFF}
+    if fin == 2:
+        for d in (False, True):
+            last = next((p for p in reversed(pk) if p.proto == "tcp" and p.srv == d and p.payload and p.tag == "seg" and
+                         p.rec_span and p.rec_span[1] == tot[d]), None)
+            if last is not None:
+                last.flags |= 0x01
+    elif fin == 1:
+        pk.append(LPkt(ci, "tcp", False, b"", ep, nxt[False], nxt[True], 0x11, "FIN"))
+        pk.append(LPkt(ci, "tcp", True, b"", ep, nxt[True], (nxt[False] + 1) & 0xFFFFFFFF, 0x11, "FIN"))
+        pk.append(LPkt(ci, "tcp", False, b"", ep, (nxt[False] + 1) & 0xFFFFFFFF, (nxt[True] + 1) & 0xFFFFFFFF, 0x10, "ack"))
+    elif fin == 3:
+        pk.append(LPkt(ci, "tcp", False, b"", ep, nxt[False], nxt[True], 0x14, "RST"))
     tls_packets.excluded = getattr(tls_packets, 'excluded', 0) + excluded
     return pk, segs
 
@@ -490,7 +507,7 @@ def write_capture(b, workdir, pkts=None, container=None, keys=None, name="in"):
         pre_idb = [other_block(bt, bl) for bt, bl in c.get("extra_pre") or []] + pre_idb
         path = os.path.join(workdir, name + ".pcapng")
         netio.write_pcapng(path, items, endian=c["endian"], tsresol=c["tsresol"], tsoffset=c["tsoffset"], offset_first=bool(c.get("offset_first")),
-                           snaplen=c.get("snaplen", 0), pre_idb=pre_idb)
+                           snaplen=c.get("snaplen", 0), pre_idb=pre_idb, ifaces=c.get("ifaces", 1), late_idb=bool(c.get("late_idb")))
     else:
         path = os.path.join(workdir, name + ".pcap")
         netio.write_pcap(path, items, endian=c["endian"], nano=c["nano"])
